@@ -408,6 +408,7 @@ def run(ctx):
     m = EngineModel(src)
     br = m.method('_build_response')
     bps = params(br)
+    ctx.need(len(bps) >= 2, 'unrecognised construct: _build_response no longer takes (version, batch items)')
     hdr_calls = [c for c in walk_local(br) if isinstance(c, ast.Call) and (call_name(c) or '').endswith('ResponseHeader')]
     msg_calls = [c for c in walk_local(br) if isinstance(c, ast.Call) and (call_name(c) or '').endswith('ResponseMessage')]
     ok = len(hdr_calls) == 1 and len(msg_calls) == 1
